@@ -376,7 +376,7 @@ fn pair_check(c1: &[u8; 5], c2: &[u8; 5], p1: usize, p2: usize, perms: &[[u8; 5]
 }
 
 pub fn check_case(clause: &str, case: &Value) -> Result<(), String> {
-    if clause.ends_with(".after_disturbance") || clause.ends_with(".concurrent") || clause.ends_with(".concurrent_cold_start") {
+    if clause.ends_with(".after_disturbance") || clause.ends_with(".concurrent") || clause.ends_with(".concurrent_cold_start") || clause.ends_with(".after_repetition") {
         return replay_after_disturbance(case, check_case);
     }
     let t = poker::tables();
